@@ -9,7 +9,7 @@
 import ast
 from fractions import Fraction
 
-from gen_tables import src, module_assign, find_func, lit, lstr, TranslatorError
+from gen_tables import src, module_assign, find_func, lit, lstr, TranslatorError, live_module
 
 LEAN_FILE = "TemplateTables.lean"
 
@@ -18,6 +18,24 @@ def _num(node, what):
     val = lit(node)
     if isinstance(val, bool) or not isinstance(val, (int, float)):
         raise TranslatorError("%s is not a number literal" % what)
+    return Fraction(repr(val))
+
+
+def _live_dict(module, name):
+    """fallback when a module-level table is no longer a dict literal (e.g. built by a comprehension from
+    smaller tables): the attribute of the live module"""
+    try:
+        val = getattr(live_module(module), name)
+    except Exception as err:  # pylint: disable=broad-except
+        raise TranslatorError("%s.%s is neither a dict literal nor a live attribute: %s" % (module, name, err))
+    if not isinstance(val, dict):
+        raise TranslatorError("%s.%s is not a dict" % (module, name))
+    return val
+
+
+def _live_num(val, what):
+    if isinstance(val, bool) or not isinstance(val, (int, float)):
+        raise TranslatorError("%s is not a number" % what)
     return Fraction(repr(val))
 
 
@@ -38,20 +56,25 @@ def extract():
     tab = {}
     mini = src("minimizer.py")
     weights = module_assign(mini, "WEIGHTS")
-    if not isinstance(weights, ast.Dict):
-        raise TranslatorError("minimizer.WEIGHTS is not a dict literal")
-    tab["weights"] = [(lit(k), _num(v, "WEIGHTS value")) for k, v in zip(weights.keys, weights.values)]
+    if isinstance(weights, ast.Dict):
+        tab["weights"] = [(lit(k), _num(v, "WEIGHTS value")) for k, v in zip(weights.keys, weights.values)]
+    else:
+        tab["weights"] = [(k, _live_num(v, "WEIGHTS value")) for k, v in _live_dict("minimizer", "WEIGHTS").items()]
     tol = _default_node(find_func(mini, "optimize_geometry"), "tolerance")
     if not isinstance(tol, ast.Dict):
         raise TranslatorError("default tolerance of optimize_geometry is not a dict literal")
     tab["tolerance"] = [(lit(k), _num(v, "tolerance value")) for k, v in zip(tol.keys, tol.values)]
     methods = module_assign(mini, "INTER_METHODS")
-    if not isinstance(methods, ast.Dict) or not all(isinstance(v, ast.Name) for v in methods.values):
-        raise TranslatorError("minimizer.INTER_METHODS is not a dict of function names")
-    tab["interMethods"] = [(lit(k), v.id) for k, v in zip(methods.keys, methods.values)]
+    if isinstance(methods, ast.Dict) and all(isinstance(v, ast.Name) for v in methods.values):
+        tab["interMethods"] = [(lit(k), v.id) for k, v in zip(methods.keys, methods.values)]
+    else:
+        live = _live_dict("minimizer", "INTER_METHODS")
+        if not all(callable(v) and hasattr(v, "__name__") for v in live.values()):
+            raise TranslatorError("minimizer.INTER_METHODS is not a dict of functions")
+        tab["interMethods"] = [(k, v.__name__) for k, v in live.items()]
     # which entry of WEIGHTS each penalty function multiplies with (compute_bond serves bonds AND constraints)
     weight_key = []
-    for fname in sorted({v.id for v in methods.values}):
+    for fname in sorted({name for _, name in tab["interMethods"]}):
         keys = []
         for node in ast.walk(find_func(mini, fname)):
             if isinstance(node, ast.Subscript) and isinstance(node.value, ast.Name) and node.value.id == "WEIGHTS":
@@ -62,15 +85,24 @@ def extract():
     tab["penaltyWeightKey"] = weight_key
 
     vsb = src("virtual_site_builder.py")
-    table = module_assign(vsb, "VIRTUAL_SITES")
-    if not isinstance(table, ast.Dict) or not all(isinstance(v, ast.Name) for v in table.values):
-        raise TranslatorError("virtual_site_builder.VIRTUAL_SITES is not a dict of function names")
+    try:
+        table = module_assign(vsb, "VIRTUAL_SITES")
+    except TranslatorError:
+        table = None
+    if isinstance(table, ast.Dict) and all(isinstance(v, ast.Name) for v in table.values):
+        pairs = [(lit(key), val.id) for key, val in zip(table.keys, table.values)]
+    else:
+        live = _live_dict("virtual_site_builder", "VIRTUAL_SITES")
+        if not all(callable(v) and hasattr(v, "__name__") for v in live.values()):
+            raise TranslatorError("virtual_site_builder.VIRTUAL_SITES is not a dict of functions")
+        # source order of the literal was sorted by section then function type in the original; a table built
+        # from smaller tables may come in another insertion order: it is only used for lookup, so sort it
+        pairs = sorted(((k, v.__name__) for k, v in live.items()), key=lambda kv: kv[0])
     entries = []
-    for key, val in zip(table.keys, table.values):
-        k = lit(key)
+    for k, name in pairs:
         if not (isinstance(k, tuple) and len(k) == 2 and all(isinstance(x, str) for x in k)):
             raise TranslatorError("VIRTUAL_SITES key is not a (str, str) tuple")
-        entries.append((k, val.id))
+        entries.append((k, name))
     tab["vsTable"] = entries
     # construct_vs must look the constructor up by (vs_type, parameters[0])
     cvs = find_func(vsb, "construct_vs")
